@@ -41,6 +41,18 @@ def share_name(t):
     return t
 
 
+DEEP = "{ types { fields { type { fields { type { fields { type { fields { name } } } } } } } } }"
+
+
+def deep_introspection(t):
+    """introspection selections nested deeper than the depth rule allows: one through a meta field that the parent type does
+    not have (no field definition there), then a well-placed one later in the document"""
+    i = t.find("{")
+    j = t.rfind("}") if " fragment " not in t else t.find("}", t.find("{"))
+    first = "o { __schema %s } i { __type(name: \"A\") { fields { type { fields { type { fields { type { name } } } } } } } } " % DEEP
+    return t[:i + 1] + " " + first + t[i + 1:] + " query Deep { __schema %s again: __schema %s }" % (DEEP, DEEP)
+
+
 def mutate_doc(text, rnd):
     ops = [
         lambda t: re.sub(r"\b(x|y|s|a|b)\b", "nope", t, count=1),                                  # unknown field
@@ -57,6 +69,7 @@ def mutate_doc(text, rnd):
         lambda t: re.sub(r"\b(o|on|i|u) \{[^{}]*\}", r"\1", t, count=1),                            # composite without selection
         lambda t: re.sub(r"\b(a|b|s)\b(?! *[:(])", r"\1 { x }", t, count=1),                        # leaf with selection
         share_name, share_name,
+        deep_introspection, deep_introspection,
     ]
     for _ in range(rnd.choice([1, 1, 2])):
         t2 = rnd.choice(ops)(text)
